@@ -97,6 +97,30 @@ class BodyLocks(object):
                     pl = rv["op"].get("move")
                     if pl is not None and not pl["p"] and pl["l"] in self.guard_locals:
                         moved.append(pl["l"])
+                    elif pl is not None and pl["p"] and pl["l"] in self.guard_locals and not lhs["p"] and \
+                            lhs["l"] in self.guard_locals:
+                        # a guard moved out of a tuple/struct of guards (`let (a, b) = lock_both()`): the part named by
+                        # the destination's type changes owner
+                        part = self.guard_locals[lhs["l"]]
+                        src, dst = pl["l"], lhs["l"]
+                        if src in may:
+                            got = may[src] & part
+                            if got:
+                                may[dst] = may.get(dst, frozenset()) | got
+                                rest = may[src] - part
+                                if rest:
+                                    may[src] = rest
+                                else:
+                                    may.pop(src)
+                        if src in must:
+                            got = must[src] & part
+                            if got:
+                                must[dst] = must.get(dst, frozenset()) | got
+                                rest = must[src] - part
+                                if rest:
+                                    must[src] = rest
+                                else:
+                                    must.pop(src)
                 elif rv["k"] == "agg":
                     for op in rv["ops"]:
                         pl = op.get("move")
